@@ -24,8 +24,13 @@ EXTENDS Naturals, Sequences, FiniteSets, TLC
 
 AllTraits == {"Debug", "Clone", "Copy", "PartialEq", "Eq", "PartialOrd", "Ord", "Hash", "Default", "Deref", "DerefMut", "Into"}
 
+\* other ways to write a literal or an identifier: 0x1F, 3u8, an out-of-range integer, r"zz", b"zz", " zz ", "a b",
+\* "0x1F", "+3", (3), r#type, "r#type", "type"
+LitKinds == {"hexint", "sufint", "bigint", "rawstr_ident", "bytestr", "str_ws_ident", "str_2idents", "str_hexint", "str_plusint",
+             "paren_int", "rawident", "str_rawident", "str_kw"}
+IdentLike == {"ident", "str_ident", "rawstr_ident", "str_ws_ident", "rawident", "str_rawident"}
 ValKinds == {"bool_t", "bool_f", "ident", "str_ident", "str_empty", "int", "negint", "str_int", "str_negint",
-             "path2", "str_path2", "float", "star", "preds", "str_preds", "call", "char"}
+             "path2", "str_path2", "float", "star", "preds", "str_preds", "call", "char"} \cup LitKinds
 NoVal == "-"
 
 \* ------------------------------------------------------------------------
@@ -38,10 +43,10 @@ NvParses(val) == val \notin {"star", "preds"}
 
 AccIdentBool(form, val) ==        \* ident_bool.rs meta_2_ident_and_bool
   /\ form # "path"
-  /\ val \in {"bool_t", "bool_f", "ident", "str_ident", "str_empty"}
+  /\ val \in {"bool_t", "bool_f", "str_empty"} \cup IdentLike
 AccIdent(form, val) ==            \* meta_2_ident
   /\ form # "path"
-  /\ val \in {"ident", "str_ident"}
+  /\ val \in IdentLike
 AccBool(form, val) ==             \* meta_2_bool
   /\ form # "path"
   /\ val \in {"bool_t", "bool_f"}
@@ -49,10 +54,10 @@ AccBoolOrPath(form, val) ==       \* meta_2_bool_allow_path
   form = "path" \/ val \in {"bool_t", "bool_f"}
 AccPath(form, val) ==             \* path.rs meta_2_path
   /\ form # "path"
-  /\ val \in {"ident", "path2", "str_ident", "str_path2"}
+  /\ val \in {"path2", "str_path2"} \cup IdentLike
 AccInt(form, val) ==              \* int.rs meta_2_isize
   /\ form # "path"
-  /\ val \in {"int", "negint", "str_int", "str_negint"}
+  /\ val \in {"int", "negint", "str_int", "str_negint", "hexint", "sufint", "str_plusint"}
 AccExpr(form, val) ==             \* expr.rs meta_2_expr
   /\ form # "path"
   /\ val \notin {"star", "preds"}
